@@ -984,7 +984,12 @@ func run(r *harness.Run) {
 		if res.Interrupted {
 			r.Cap(fmt.Sprintf("scenario %s: time budget reached after %d schedules: bound %d completed, bound %d not", sc.name, res.Execs, res.CompletedBound, res.CompletedBound+1))
 		}
-		r.Vacuous(len(res.Observations) < 2 && !strings.HasPrefix(sc.name, "event-"), sc.name+": every schedule gave the same observation - nothing collided")
+		if len(res.Observations) == 1 && strings.Contains(res.Observations[0], "scenario not run") {
+			// the live-dial scenario needs a loopback interface; without one it decides nothing and says so
+			r.Count("scenarios_not_run_for_lack_of_loopback", 1)
+		} else {
+			r.Vacuous(len(res.Observations) < 2 && !strings.HasPrefix(sc.name, "event-"), sc.name+": every schedule gave the same observation - nothing collided")
+		}
 		b := bound
 		if sc.heavy {
 			b--
